@@ -110,7 +110,7 @@ def run(cx):
                             return "ret=backoff-elapsed-or-none"
                 return "ret=?call:" + c.fn.split("::")[-1]
             return None
-        ws = {fmt_word(w) for w in seq_words(b, call_sym2, stmt_sym, extra)}
+        ws = {fmt_word(w) for w in seq_words(b, call_sym2, stmt_sym, extra, inline_prog=prog)}     # predicate helpers are inlined
         # order-insensitive semantics of the conjunction: a path may answer "eligible" only after ALL tests passed;
         # every other path answers false and has at least one failed test.
         need = {"aff": "High", "is-self": "false", "no-address": "false", "connected": "false", "pending": "false"}
